@@ -668,6 +668,10 @@ class Exec:
             for q in parts:
                 if not z3.is_string_value(q):
                     st.assume(z3.Contains(z, q))
+            sub = z3.Const("csub", M.S)
+            if pattern_ok(z):     # a single character is in the concatenation iff it is in one of the parts
+                st.assume(z3.ForAll([sub], M.chin(z, sub) == z3.Or(*[M.chin(q, sub) for q in parts]),
+                                    patterns=[M.chin(z, sub)]))
             al = z3.Const("cal", M.S)
             if pattern_ok(z):     # ite / boolean connectives may not occur in a pattern: no hint then
                 st.assume(z3.ForAll([al], M.all_in(z, al) == z3.And(*[M.all_in(p, al) for p in parts]),
@@ -821,7 +825,7 @@ class Exec:
         if m.name == "string":
             import string as _s
             return self.const(getattr(_s, name))
-        if m.name == "sre" and name == "parse":
+        if m.name in ("sre", "re._parser", "sre_parse") and name == "parse":
             return Builtin("sre.parse")
         if m.name == "ast":
             if name == "parse":
@@ -1038,6 +1042,14 @@ class Exec:
             st.assume(z3.Length(r) == z3.If(n > 0, n, 0) * z3.Length(M.sval(za)))
             self.used_assumptions.add("str * int: only the length of the result is modelled")
             return [(st, T(M.StrV(r), "str"))]
+        if isinstance(op, ast.Sub) and ha in ("set", "frozenset") and hb in ("set", "frozenset"):
+            za, zb = self.term(a, st), self.term(b, st)
+            r = M.fresh("setdiff")
+            x = z3.Const("x", Obj)
+            st.assume(M.is_Ref(r), M.rcls(r) == self.ct.id("set"), M.klen(r) <= M.klen(za),
+                      z3.ForAll([x], M.has(r, x) == z3.And(M.has(za, x), z3.Not(M.has(zb, x))), patterns=[M.has(r, x)]))
+            self.used_assumptions.add("builtin: set difference (membership; size at most that of the left operand)")
+            return [(st, T(r, "set"))]
         if isinstance(op, ast.Sub) and ha in ("date", "datetime") and hb == "timedelta":
             r = M.fresh("date")
             st.assume(M.is_Ref(r), M.rcls(r) == self.ct.id(ha))
@@ -1303,6 +1315,15 @@ class Exec:
                     if isinstance(a, ast.Starred):
                         if isinstance(v, Tup):
                             pos += list(v.items)
+                        elif isinstance(v, T):
+                            # f(*x) with a symbolic tuple: its length must be known on this path
+                            zt = v.z
+                            for k_ in range(0, 5):
+                                if self.proves(s2, M.llen(zt) == k_):
+                                    pos += [T(M.lat(zt, i_)) for i_ in range(k_)]
+                                    break
+                            else:
+                                raise Unsupported("*args of a tuple of unknown length")
                         else:
                             raise Unsupported("*args of non-literal tuple")
                     else:
